@@ -15,7 +15,21 @@ INLINE_HELPERS = ('goto', 'check_index', 'mark')
 
 
 class GenFacts:
+    _cache = {}
+
+    def __new__(cls, repo, unroll=(0, 1, 2)):
+        key = (id(repo), tuple(unroll))
+        inst = cls._cache.get(key)
+        if inst is None or inst.repo is not repo:
+            inst = super().__new__(cls)
+            inst._ready = False
+            cls._cache[key] = inst
+        return inst
+
     def __init__(self, repo: Repo, unroll=(0, 1, 2)):
+        if getattr(self, '_ready', False):
+            return
+        self._ready = True
         self.repo = repo
         self.unroll = unroll
         self.methods = repo.methods(GEN, 'CodeGen')
